@@ -419,9 +419,9 @@ fn probes(st: &mut Stats, l: &LineOp, out: &Outcome, before: (bool, u8)) {
     if let Outcome::Complete(s, _) = out {
         if let Some(m) = &s.message {
             if m.starts_with("AddressedSafetyRelatedMessage") || m.starts_with("SafetyRelatedBroadcastMessage") {
-                let bytes = (s.data.len() * 6 + 7) / 8;
+                // characters transmitted: 6 bits per payload character, less the fill count
                 let hdr = if m.starts_with("Addressed") { 72 } else { 40 };
-                let chars = (bytes * 8).saturating_sub(hdr) / 6;
+                let chars = (s.data.len() * 6).saturating_sub(s.fill.min(5) as usize).saturating_sub(hdr) / 6;
                 st.probe_if(chars > 20, "decode:safety text > 20 chars");
                 st.probe_if(chars == 20, "decode:safety text = 20 chars");
             }
